@@ -28,6 +28,8 @@ func main() {
 		runSearch(os.Args[2])
 	case "alias":
 		runAlias(os.Args[2])
+	case "dump":
+		runDump(os.Args[2])
 	default:
 		fmt.Fprintln(os.Stderr, "unknown engine")
 		os.Exit(2)
